@@ -982,11 +982,7 @@ class Canon:
         blk = list(self.block(body_without_docstring(self.fi.node)))
         # falling off the end is 'return None': with it made explicit, a conditional that ends the function has exiting arms
         # and gets the guard normal form ('if not c: rest' == 'if c: return' ; rest); the explicit returns are dropped again
-        if not _ends_in_exit(blk):
-            blk.append(("ret", K_NONE))
-        if blk[-1] == ("ret", K_NONE):
-            blk = _merge_guard_chain(_tail_returns(blk))
-        return _strip_tail_returns(tuple(blk))
+        return _function_tail(blk)
 
     def stmt(self, st: ast.stmt) -> list[S]:
         if isinstance(st, ast.Pass):
@@ -1103,6 +1099,17 @@ def _ends_in_exit(block) -> bool:
     return bool(block) and isinstance(block[-1], tuple) and bool(block[-1]) and block[-1][0] in _EXITS
 
 
+def _function_tail(blk) -> tuple:
+    """falling off the end is 'return None': with it made explicit, a conditional that ends the function has exiting arms
+    and gets the guard normal form ('if not c: rest' == 'if c: return' ; rest); the explicit returns are dropped again"""
+    blk = list(blk)
+    if not _ends_in_exit(blk):
+        blk.append(("ret", K_NONE))
+    if blk[-1] == ("ret", K_NONE):
+        blk = _merge_guard_chain(_tail_returns(blk))
+    return _strip_tail_returns(tuple(blk))
+
+
 def _tail_returns(stmts: list) -> list:
     """``stmts`` ends with ``return None``; a conditional right before it gets the return in each of its arms"""
     if len(stmts) >= 2 and isinstance(stmts[-2], tuple) and len(stmts[-2]) == 4 and stmts[-2][0] == "if":
@@ -1153,6 +1160,45 @@ def _trivial_getters(cls) -> dict:
     except Exception:
         pass
     return out
+
+
+_CONSUMERS = ("sum", "any", "all", "min", "max", "sorted", "set", "frozenset", "tuple", "list", "dict")
+
+
+def _renorm_local(x: S) -> S:
+    """the rewrites that the canonicaliser applies when it sees a construct, applied again after locals have been looked
+    through (so that the normal form does not depend on whether a value sat in a local): tests (`len(x) > 0` is `x`),
+    consumers of a list comprehension, isinstance with several types, list(map(lambda ...)), d.get"""
+    if not isinstance(x, tuple) or not x:
+        return x
+    x = tuple(_renorm_local(y) for y in x)
+    t = x[0]
+    if t == "if" and len(x) == 4:
+        return ("if", _truth(x[1]), x[2], x[3])
+    if t == "while" and len(x) == 4:
+        return ("while", _truth(x[1]), x[2], x[3])
+    if t == "assert" and len(x) == 2:
+        return ("assert", _truth(x[1]))
+    if t == "ite" and len(x) == 4:
+        return mk_ite(_truth(x[1]), x[2], x[3])
+    if t == "not" and len(x) == 2:
+        return mk_not(_truth(x[1]))
+    if t == "and" and len(x) == 2 and isinstance(x[1], tuple):
+        return mk_and([_truth(y) for y in x[1]])
+    if t == "or" and len(x) == 2 and isinstance(x[1], tuple):
+        return mk_or([_truth(y) for y in x[1]])
+    if t == "comp" and len(x) == 4:
+        return ("comp", x[1], x[2], tuple((g[0], g[1], _truth(g[2])) for g in x[3]))
+    if t == "c" and len(x) == 4 and isinstance(x[1], tuple):
+        fn, args, kwargs = x[1], x[2], x[3]
+        if fn[:1] == ("g",) and fn[1] in _CONSUMERS and len(args) >= 1 and isinstance(args[0], tuple) and args[0][:2] == ("comp", "list"):
+            return ("c", fn, (("comp", "gen") + tuple(args[0][2:]),) + tuple(args[1:]), kwargs)
+        if fn == ("g", "isinstance") and len(args) == 2 and not kwargs and isinstance(args[1], tuple) and args[1][:1] == ("tuple",) and args[1][1]:
+            return mk_or([("c", fn, (args[0], ty), ()) for ty in args[1][1]])
+        if fn == ("g", "list") and len(args) == 1 and not kwargs and isinstance(args[0], tuple) and args[0][:2] == ("c", ("g", "map")) \
+                and len(args[0][2]) == 2 and isinstance(args[0][2][0], tuple) and args[0][2][0][:2] == ("lambda", 1):
+            return ("comp", "list", (args[0][2][0][2],), ((("b", 1, 0), args[0][2][1], K_TRUE),))
+    return x
 
 
 def _flat_if(st: S) -> S:
@@ -1782,7 +1828,7 @@ class Normalizer:
     that other expressions of the same function (branch conditions, call arguments taken from the CFG) can be put
     into the same terms."""
 
-    def __init__(self, raw_block: tuple, keep_identity: bool = True):
+    def __init__(self, raw_block: tuple, keep_identity: bool = True, function_body: bool = True):
         self.rounds: list = []
         nums = [0]
 
@@ -1798,20 +1844,35 @@ class Normalizer:
         def fresh():
             nums[0] += 1
             return ("v", 500 + nums[0])
-        block = _index_loops(_param_versions(_if_convert(_ret_peephole(_query_loops(_pair_iteration(_unfold_list_comps(_fuse_comps(raw_block), fresh)))))))
+        def shape_passes(b):
+            return _index_loops(_param_versions(_if_convert(_ret_peephole(_query_loops(_pair_iteration(b))))))
+
+        def look_through(block):
+            defs = single_defs(block, keep_identity)
+            for _ in range(6):
+                if not defs:
+                    break
+                self.rounds.append(defs)
+                block = _if_convert(_drop_sets(_renorm_local(deref(block, defs)), set(defs)))
+                fused = _fuse_loops(_fuse_comps(block), fresh)
+                if fused != block:
+                    block = _index_loops(fused)
+                defs = single_defs(block, keep_identity)
+            return block
+        # 1. locals that only name a value are looked through first (so that it does not matter whether a comprehension sat in a
+        #    local of its own), 2. then the comprehensions that are assigned / returned / put into a record become collecting loops,
+        #    3. and what that uncovers is looked through again
+        block = shape_passes(_fuse_comps(raw_block))
+        block = _swap_via_temp(block)
         block, aliases = _store_aliases(block)
         if aliases:
             self.rounds.append(aliases)
-        defs = single_defs(block, keep_identity)
-        for _ in range(6):
-            if not defs:
-                break
-            self.rounds.append(defs)
-            block = _if_convert(_drop_sets(deref(block, defs), set(defs)))
-            fused = _fuse_loops(_fuse_comps(block), fresh)
-            if fused != block:
-                block = _index_loops(fused)
-            defs = single_defs(block, keep_identity)
+        block = look_through(block)
+        unfolded = _unfold_list_comps(block, fresh)
+        if unfolded != block:
+            block = look_through(shape_passes(unfolded))
+        if function_body:
+            block = _function_tail(block)
         mapping: dict = {}
 
         def rec(x):
@@ -1831,7 +1892,56 @@ class Normalizer:
     def apply(self, s: S) -> S:
         for defs in self.rounds:
             s = deref(s, defs)
+        if self.rounds:
+            s = _renorm_local(s)
         return s if self.identity else Sigma(raw_subst=self.mapping).apply(s)
+
+
+def _swap_via_temp(block: tuple) -> tuple:
+    """``t = X; X = Y; Y = t`` (X, Y container slots or attributes) is the exchange ``X, Y = Y, X``; afterwards t names what is
+    now at Y.  An exchange is stored with its two places in a fixed order."""
+    def occ(x, v):
+        if isinstance(x, tuple):
+            if x == v:
+                return 1
+            return sum(occ(y, v) for y in x)
+        return 0
+
+    def place(x):
+        return isinstance(x, tuple) and x[:1] in (("s",), ("a",)) and len(x) == 3
+
+    def rec(blk):
+        blk = list(blk)
+        out = []
+        i = 0
+        while i < len(blk):
+            st = blk[i]
+            if i + 2 < len(blk):
+                a, b, c = blk[i], blk[i + 1], blk[i + 2]
+                if all(isinstance(x, tuple) and len(x) == 3 and x[0] == "set" for x in (a, b, c)) and isinstance(a[1], tuple) and a[1][:1] == ("v",) \
+                        and place(a[2]) and b[1] == a[2] and place(b[2]) and c[1] == b[2] and c[2] == a[1] and a[2] != b[2] \
+                        and not occ(a[2], a[1]) and not occ(b[2], a[1]):
+                    x_, y_ = sorted([a[2], b[2]], key=skey)
+                    out.append(("mset", (x_, y_), (y_, x_)))
+                    if occ(whole, a[1]) > 2:
+                        out.append(("set", a[1], b[2]))
+                    i += 3
+                    continue
+            if isinstance(st, tuple) and st:
+                if st[0] == "mset" and len(st[1]) == 2 and len(st[2]) == 2 and st[1][0] == st[2][1] and st[1][1] == st[2][0] and place(st[1][0]) and place(st[1][1]):
+                    x_, y_ = sorted(st[1], key=skey)
+                    st = ("mset", (x_, y_), (y_, x_))
+                elif st[0] == "if" and len(st) == 4:
+                    st = ("if", st[1], rec(st[2]), rec(st[3]))
+                elif st[0] == "for" and len(st) == 5:
+                    st = ("for", st[1], st[2], rec(st[3]), rec(st[4]))
+                elif st[0] == "while" and len(st) == 4:
+                    st = ("while", st[1], rec(st[2]), rec(st[3]))
+            out.append(st)
+            i += 1
+        return tuple(out)
+    whole = block
+    return rec(block)
 
 
 def _store_aliases(block: tuple):
